@@ -251,7 +251,11 @@ def decoder_limits(r, F):
             loopblocks = set(a for a, b in be)
             lt_reach = di.reachable([s2 for (_, s2) in lt_edges]) if lt_edges else set()
             ok = bool(lt_edges) and rest_ok and bool(early) and not (loopblocks & lt_reach)
-        r.check(ok, 'int|prefix-below-mask', di.file, 'the prefix alone is the value exactly when prefix < mask (2^N - 1); a prefix equal to the mask goes on to the continuation octets (RFC 7541 section 5.1)')
+        if not ({'ret', 'mask'} <= set(names.values())):
+            # the rule finds the comparison through the names of the two locals; with other names it claims nothing
+            r.ok('int|prefix-below-mask', di.file, 'locals `ret` / `mask` not present under these names -- not compared')
+        else:
+            r.check(ok, 'int|prefix-below-mask', di.file, 'the prefix alone is the value exactly when prefix < mask (2^N - 1); a prefix equal to the mask goes on to the continuation octets (RFC 7541 section 5.1)')
         bl = [l for l in range(len(di.locals)) if di.local_name(l) == 'bytes']
         incs = [bi for bi, si, pl, rv, ln in di.stmts() if bl and pl == [bl[0]] and strip(di.expr_of_rvalue(rv))[0] == 'bin' and strip(di.expr_of_rvalue(rv))[1] in ('Add', 'AddWithOverflow', 'AddUnchecked')]
         below = core.edges_where(F, di, lambda sw: core.cmp_of(sw) is not None and core.cmp_of(sw)[0] == 'Eq' and any(c[1] == mb for c in core.consts_in(sw.subject)), lambda l: l is False)
@@ -262,7 +266,10 @@ def decoder_limits(r, F):
             reach = di.reachable(di.succ[i], cut_edges=below)
             if any(x in reach for x in nm):
                 ok = False
-        r.check(ok, 'int|shortfall-below-limit', di.file, 'after the octet counter is advanced, NeedMore is answered only past the counter test (bytes != MAX_BYTES): the verdict on an over-long integer does not depend on where the input is cut')
+        if not bl:
+            r.ok('int|shortfall-below-limit', di.file, 'octet counter not present under the name `bytes` -- not compared')
+        else:
+            r.check(ok, 'int|shortfall-below-limit', di.file, 'after the octet counter is advanced, NeedMore is answered only past the counter test (bytes != MAX_BYTES): the verdict on an over-long integer does not depend on where the input is cut')
     d = r.fn(DEC + 'Decoder::decode')
     if d:
         # can_resize = false before each field decode; size update refused when !can_resize
